@@ -422,6 +422,115 @@ pub fn machine_level(ctx: &Ctx) {
     ctx.note("machine_level_programs", json!(programs.iter().map(|p| p.0).collect::<Vec<_>>()));
 }
 
+/// The ROM loader served by a playing deck, request after request without a gap (each issued while
+/// the deck is between blocks), on machines with fast loading disabled and enabled: a playing deck
+/// is never short-cut, every block passes over EAR as one burst of pilot + sync + data pulses and
+/// lands in memory.
+pub fn rom_loader_between_blocks(ctx: &Ctx) {
+    use crate::rig::{Opts, RegsView};
+    const RET: u16 = 0x8F00;
+    const STACK: u16 = 0xBF00;
+    let jobs: Vec<(bool, bool)> = vec![(false, false), (false, true), (true, false), (true, true)];
+    par_for(jobs.len(), 1, |j| {
+        let (m128, fastload) = jobs[j];
+        let mut o = Opts::machine(m128);
+        o.sound = false;
+        o.fastload = fastload;
+        let mut e = rig::emu_stepping(&o);
+        if m128 {
+            rig::cpu_out(&mut e, 0x8000, 0x7FFD, 0x10);
+        }
+        let payloads: Vec<Vec<u8>> = vec![vec![0x11, 0x22, 0x33, 0x44, 0x55], vec![0xA5, 0x3C, 0x00], vec![0xFF, 0x01]];
+        let blocks: Vec<Vec<u8>> = payloads.iter().map(|p| std_block(0xFF, p)).collect();
+        if e.load_tape(rustzx_core::host::Tape::Tap(rig::VAsset::new(tap_image(&blocks)))).is_err() {
+            return;
+        }
+        // the ROM returns with interrupts enabled: DI; JR $ keeps the machine where it is afterwards
+        rig::poke(&mut e, RET, &[0xF3, 0x18, 0xFE]);
+        let issue = |e: &mut rig::Emu, k: usize| {
+            let mut v = RegsView::default();
+            v.pc = 0x0556;
+            v.sp = STACK;
+            v.af = 0xFF01;
+            v.ix = 0x9000 + 0x100 * k as u16;
+            v.de = payloads[k].len() as u16;
+            v.im = 1;
+            v.i = 0x3F;
+            rig::set_regs(e.verif_cpu(), &v);
+            rig::poke(e, STACK, &[RET as u8, (RET >> 8) as u8]);
+        };
+        e.play_tape();
+        issue(&mut e, 0);
+        let mut served = 0usize;
+        let mut level = e.verif_tape_state().map(|s| s.curr_bit).unwrap_or(false);
+        let mut edges: Vec<u64> = Vec::new();
+        let t0 = rig::abs_t(&e, m128);
+        let horizon = 3 * (3223 * 2200 + 16 * 8 * 1800 + 4_000_000) as u64;
+        let mut carries: Vec<bool> = Vec::new();
+        let mut done_at: Option<u64> = None;
+        loop {
+            rig::step(&mut e);
+            let t = rig::abs_t(&e, m128) - t0;
+            let l = e.verif_tape_state().map(|s| s.curr_bit).unwrap_or(false);
+            if l != level {
+                level = l;
+                edges.push(t);
+            }
+            if served < 3 && e.verif_cpu().regs.get_pc() == RET {
+                carries.push(rig::regs_view(e.verif_cpu()).af & 1 != 0);
+                served += 1;
+                if served < 3 {
+                    issue(&mut e, served);
+                } else {
+                    done_at = Some(t);
+                }
+            }
+            // the deck is listened to for 1.2 s after the last request returned
+            if t > horizon || done_at.map_or(false, |d| t > d + 4_200_000) {
+                break;
+            }
+        }
+        ctx.add_traces(1);
+        ctx.add_eval(3);
+        let mname = format!("{}{}", if m128 { "128k" } else { "48k" }, if fastload { "+fastload-enabled" } else { "" });
+        let case = json!({"kind":"rom-loader-between-blocks","m128":m128,"fastload":fastload});
+        // bursts of edges separated by more than 100000 T
+        let mut bursts: Vec<usize> = Vec::new();
+        let mut last: Option<u64> = None;
+        for t in edges.iter() {
+            match last {
+                Some(p) if t - p <= 100_000 => *bursts.last_mut().unwrap() += 1,
+                _ => bursts.push(1),
+            }
+            last = Some(*t);
+        }
+        // a burst of n+1 edges holds n pulses; the edge ending the pause may stand alone or open the next burst
+        let bursts: Vec<usize> = bursts.into_iter().filter(|n| *n > 4).collect();
+        let want: Vec<usize> = blocks.iter().map(|b| 3223 + 2 + 16 * b.len()).collect();
+        let ok_bursts = bursts.len() == want.len() && bursts.iter().zip(want.iter()).all(|(g, w)| *g + 3 >= *w && *g <= *w + 4);
+        if !ok_bursts {
+            ctx.violation(
+                &format!("C11:rom-loader-between-blocks:ear-bursts:{}", mname),
+                &format!("{}: deck playing a tape of 3 blocks while the ROM loader is called three times back to back: EAR carried bursts of {:?} edges, the blocks are {:?} pulses long", mname, bursts, want),
+                case.clone(),
+            );
+            return;
+        }
+        for k in 0..3 {
+            let got: Vec<u8> = (0..payloads[k].len()).map(|i| e.peek(0x9000 + 0x100 * k as u16 + i as u16)).collect();
+            if served <= k || !carries[k] || got != payloads[k] {
+                ctx.violation(
+                    &format!("C11:rom-loader-between-blocks:load:{}", mname),
+                    &format!("{}: request #{} of three back-to-back ROM loader calls against a playing deck: returned={} carry={:?} memory {:02x?}, the block holds {:02x?}", mname, k, served > k, carries.get(k), got, payloads[k]),
+                    case.clone(),
+                );
+                return;
+            }
+        }
+        ctx.outcome(fnv(mname.as_bytes()) ^ edges.len() as u64);
+    });
+}
+
 /// Block-size family: the tape reads its file through a 128-byte window; every relation of a
 /// block's total size to that window (1, 2, 127..130, 255..258, 383..385, 512) as first and as second
 /// block. Fixed 16-T steps (the step-partition search above covers the time axis on the named tapes), each
@@ -561,10 +670,11 @@ pub fn run(tier: Tier, seed: u64, replay: Option<String>) -> i32 {
     ctx.note("step_alphabet", json!("process_clocks(s) for every s in 0..=16 from every reachable (tape state, time since last edge)"));
     crate::checks::c10::realtime_vs_fast(&ctx);
     machine_level(&ctx);
+    rom_loader_between_blocks(&ctx);
     size_family(&ctx, tier.is_thorough());
     ear_on_every_even_port(&ctx);
     ctx.finish(
-        "component level: for each tape, every reachable state of the real Tap under all partitions of time into process_clocks steps 0..=16 (search decomposed at state-machine reload events; convergence of all paths at each reload is re-checked on every exit transition); oracle: RefTape decoder on the pulse list (pilot counts, sync, MSB-first bits, pause, decoded bytes == TAP blocks) and nominal <= pulse <= nominal+32 on every edge transition; block-size family: two-block tapes over every relation of the block sizes to the 128-byte read window (1..512 bytes) played in fixed steps (through whole-read and short-read assets) and decoded strictly; machine level: idle/polling programs over contended and uncontended bus cycles with the EAR level sampled after every instruction, real-time ROM loads against RefLdBytes, and bit 6 of IN from 256 high bytes x 4 even low bytes at both tape levels. distinct = distinct (pulse kind, extreme duration) and waveform outcomes",
+        "component level: for each tape, every reachable state of the real Tap under all partitions of time into process_clocks steps 0..=16 (search decomposed at state-machine reload events; convergence of all paths at each reload is re-checked on every exit transition); oracle: RefTape decoder on the pulse list (pilot counts, sync, MSB-first bits, pause, decoded bytes == TAP blocks) and nominal <= pulse <= nominal+32 on every edge transition; block-size family: two-block tapes over every relation of the block sizes to the 128-byte read window (1..512 bytes) played in fixed steps (through whole-read and short-read assets) and decoded strictly; machine level: idle/polling programs over contended and uncontended bus cycles with the EAR level sampled after every instruction, real-time ROM loads against RefLdBytes, three back-to-back ROM loader calls against a playing deck with fast loading disabled and enabled (every block must pass over EAR as one burst of the right number of pulses and land in memory), and bit 6 of IN from 256 high bytes x 4 even low bytes at both tape levels. distinct = distinct (pulse kind, extreme duration) and waveform outcomes",
         true,
         &["hook H3: Tap clone + verif_state (all fields)", "time is measured at call ends (when a reader could first observe the level)"],
     )
@@ -591,6 +701,12 @@ fn replay_case(ctx: &Ctx, path: &str) -> i32 {
     }
     if case["kind"] == "ear-port" {
         ear_on_every_even_port(ctx);
+        let n = ctx.violation_classes();
+        println!("replay: {} violation class(es) reproduced", n);
+        return (n > 0) as i32;
+    }
+    if case["kind"] == "rom-loader-between-blocks" {
+        rom_loader_between_blocks(ctx);
         let n = ctx.violation_classes();
         println!("replay: {} violation class(es) reproduced", n);
         return (n > 0) as i32;
